@@ -120,3 +120,67 @@ pub fn run_kernel(c: &KernelCase) -> Option<Outcome> {
 pub fn kind_name(k: Kind) -> &'static str {
     k.name()
 }
+
+/// One decoded input for the `twins` target: the differential properties C10, C11, C16, C17 all take
+/// (configuration, history); the trailing bytes choose their extra knobs.
+pub struct TwinCases {
+    pub c10: crate::props::c10::Case,
+    pub c11: crate::props::c11::Case,
+    pub c16: crate::props::c16::Case,
+    pub c17: crate::props::c17::Case,
+}
+
+pub fn twin_cases(data: &[u8]) -> Option<TwinCases> {
+    let mut u = Unstructured::new(data);
+    let mut cfg = config(&mut u).ok()?;
+    cfg.kernel = if cfg.kernel == Kernel::RangeProbe { Kernel::Dispatch } else { cfg.kernel };
+    let seed: u64 = u.arbitrary().ok()?;
+    let split: u8 = u.arbitrary().ok()?;
+    let mask: Option<u8> = mask(&mut u).ok()?;
+    let via_vec: bool = u.arbitrary().ok()?;
+    let flush: u8 = u.int_in_range(0..=4u8).ok()?;
+    let failed_call: bool = u.arbitrary().ok()?;
+    let tone_f = 0.001 + 0.4 * unit(&mut u).ok()?;
+    let n = u.int_in_range(1..=24usize).ok()?;
+    let mut ops = vec![];
+    for _ in 0..n {
+        match op(&mut u) {
+            Ok(o) => ops.push(o),
+            Err(_) => break,
+        }
+    }
+    let calls = ops.iter().filter(|o| o.is_call()).count().max(1) as f64;
+    while call_cost(&cfg) * calls > 1.5e6 && cfg.chunk > 1 {
+        cfg.chunk = (cfg.chunk / 2).max(1);
+    }
+    let k = (split as usize * (ops.len() + 1)) >> 8;
+    let (prefix, suffix) = (ops[..k].to_vec(), ops[k..].to_vec());
+    let mut cfg17 = cfg.clone();
+    cfg17.channels = cfg17.channels.min(2);
+    Some(TwinCases {
+        c10: crate::props::c10::Case { cfg: cfg.clone(), seed, prefix, failed_call, suffix },
+        c11: crate::props::c11::Case { cfg: cfg.clone(), seed, mask, ops: ops.clone() },
+        c16: crate::props::c16::Case { cfg: cfg.clone(), seed, ops: ops.clone(), via_vec, flush },
+        c17: crate::props::c17::Case { cfg: cfg17, seed, tones: vec![crate::signal::Tone { f: tone_f, a: 0.8, ph: 0.5 }], ops },
+    })
+}
+
+pub fn run_twins(t: &TwinCases) -> Option<(&'static str, Outcome, String)> {
+    let o = crate::props::c10::C10.run(&t.c10);
+    if o.fail.is_some() {
+        return Some(("C10", o, serde_json::to_string(&t.c10).unwrap()));
+    }
+    let o = crate::props::c11::C11.run(&t.c11);
+    if o.fail.is_some() {
+        return Some(("C11", o, serde_json::to_string(&t.c11).unwrap()));
+    }
+    let o = crate::props::c16::C16.run(&t.c16);
+    if o.fail.is_some() {
+        return Some(("C16", o, serde_json::to_string(&t.c16).unwrap()));
+    }
+    let o = crate::props::c17::C17.run(&t.c17);
+    if o.fail.is_some() {
+        return Some(("C17", o, serde_json::to_string(&t.c17).unwrap()));
+    }
+    None
+}
